@@ -504,7 +504,8 @@ def concRun (j : Json) : Except String Json := do
     let v3 ← p.getObjValAs? Bool "v3"
     pure (linearProc v3 (← getNat p "res") (← getNats p "reqs"))
   let sched ← getNats j "schedule"
-  let s := Conc.runSched (fun q => q) 0 (Conc.start ps) sched
+  let forget := (getNats j "forget").toOption.getD []
+  let s := Conc.runSched (fun q => q) (fun q _ => forget.contains q) 0 (Conc.start ps) sched
   let log := s.log.map fun e => match e.2 with
     | .probe => toJson (#[toJson e.1, toJson "probe"] : Array Json)
     | .req q => toJson (#[toJson e.1, toJson q] : Array Json)
